@@ -181,7 +181,7 @@ def f32(x: float) -> float:
 def rand_f32(rng) -> float:
     r = rng.random()
     if r < 0.15:
-        return rng.choice((0.0, -0.0, 1.0, -1.0, 0.5, float('inf'), float('-inf'), 3.4028234663852886e+38, 1e-45))
+        return f32(rng.choice((0.0, -0.0, 1.0, -1.0, 0.5, float('inf'), float('-inf'), 3.4028234663852886e+38, 1e-45)))
     if r < 0.5:
         return f32(rng.uniform(-4, 4))
     if r < 0.8:
@@ -290,8 +290,6 @@ def gen_case(rng, fmt: Optional[str] = None, thumb: Optional[str] = None, max_si
         cand = [m for m in (2, 3, 4, 5) if m != minor]
         if case['resources'] or case['sheet']:
             cand = [m for m in cand if m >= 3]
-        if cube:  # side list is fixed at construction: stay on the same side of the 7.5 sphere-map boundary
-            cand = [m for m in cand if (m >= 5) == (minor >= 5)]
         if cand:
             case['save_minor'] = rng.choice(cand)
     return case
@@ -316,6 +314,17 @@ def gen_pixels(rng, mode: str, w: int, h: int) -> bytes:
         return bytes(out)
     if mode == 'fill':
         return rng.randbytes(4) * n
+    if mode == 'sweep':
+        # every value 0..255 occurs in every channel (needs n >= 256); channels are decorrelated by permutations
+        perms = []
+        for _ in range(4):
+            p = list(range(256))
+            rng.shuffle(p)
+            perms.append(p)
+        out = bytearray()
+        for i in range(n):
+            out += bytes(p[i % 256] for p in perms)
+        return bytes(out)
     raise ValueError(mode)
 
 
@@ -355,3 +364,49 @@ def handmade_vtf(w: int, h: int, minor: int, frames: int, depth: int, cube: bool
         head += bytes(15)
     assert len(head) == header_size, (len(head), header_size)
     return bytes(head + body)
+
+
+# ------------------------------------------------------------------------------------------------
+# Independent reader of the file layout (header + resource table only).
+
+BITS = {'RGBA8888': 32, 'ABGR8888': 32, 'ARGB8888': 32, 'BGRA8888': 32, 'UVWQ8888': 32, 'UVLX8888': 32, 'BGRX8888': 32,
+        'RGB888': 24, 'BGR888': 24, 'RGB888_BLUESCREEN': 24, 'BGR888_BLUESCREEN': 24,
+        'RGB565': 16, 'BGR565': 16, 'BGRX5551': 16, 'BGRA5551': 16, 'BGRA4444': 16, 'IA88': 16, 'UV88': 16,
+        'I8': 8, 'A8': 8, 'NONE': 0}
+
+
+def parse_layout(data: bytes) -> dict:
+    """Header fields and image offsets, decoded without the library."""
+    if data[:4] != b'VTF\0':
+        raise ValueError('signature')
+    major, minor = struct.unpack_from('<II', data, 4)
+    (header_size, w, h, flags, frames, first, r0, r1, r2, bump, fmt, mips, low_fmt, low_w, low_h) = \
+        struct.unpack_from('<IHHIHH4xfff4xfiBiBB', data, 12)
+    depth = struct.unpack_from('<H', data, 63)[0]
+    out = {'minor': minor, 'header_size': header_size, 'w': w, 'h': h, 'flags': flags, 'frames': frames, 'mips': mips,
+           'fmt': fmt, 'low_fmt': low_fmt, 'low_w': low_w, 'low_h': low_h, 'depth': depth, 'resources': []}
+    if minor >= 3:
+        n = struct.unpack_from('<I', data, 68)[0]
+        low_off = high_off = None
+        for i in range(n):
+            rid, rflags, val = struct.unpack_from('<3sBI', data, 80 + 8 * i)
+            out['resources'].append([rid.hex(), rflags, val])
+            if rid == b'\x01\0\0':
+                low_off = val
+            elif rid == b'\x30\0\0':
+                high_off = val
+        out['low_off'], out['high_off'] = low_off, high_off
+        out['table_end'] = 80 + 8 * n
+    else:
+        out['low_off'] = header_size
+        out['high_off'] = None  # needs the thumbnail size: filled in by the caller
+        out['table_end'] = 80
+    return out
+
+
+def image_bytes(w: int, h: int, mips: int, frames: int, faces: int, bits: int) -> int:
+    total = 0
+    for lv in range(mips):
+        lw, lh = expected_dims(w, h, lv)
+        total += lw * lh * bits // 8 * frames * faces
+    return total
